@@ -142,7 +142,62 @@ def _post_nocancel(engine, st, ctx, out):
              z3.BoolVal(out is False and not ev), ["C17", "C06"])]
 
 
+# ---- item assignment / deletion: statements, forwarded to the result ---------------------------------------------------------------
+def _setup_item(meth, state):
+    n = 2 if meth == "__setitem__" else 1
+
+    def setup(engine, st):
+        me = sym_inst(engine, st, "ProxyFuture", "self")
+        sid = Val.id(me.t)
+        st.assume(st.fstate(sid) != RUNNING)
+        if state == "resolved":
+            st.assume(z3.And(st.finished(sid), Val.is_none(st.fexc(sid))))
+        else:
+            st.assume(z3.And(st.finished(sid), z3.Not(Val.is_none(st.fexc(sid)))))
+        others = [sym_val(engine, st, "any", "operand%d" % k) for k in range(n)]
+        return [me] + others, {}, {"me": me, "sid": sid, "others": others, "res": st.fresult(sid), "exc": st.fexc(sid),
+                                    "timeout": st.get("_ProxyFuture__timeout", sid)}
+    return setup
+
+
+def _post_item(meth, state):
+    op = "setitem" if meth == "__setitem__" else "delitem"
+
+    def post(engine, st, ctx, out):
+        ops = [e for e in st.trace if e.kind == "operator"]
+        calls = user_calls(st)
+        rc = [e for e in st.trace if e.kind == "result-call"]
+        if state == "failed":
+            return [("a failed future makes the forwarded operation raise the future's own exception", "PC",
+                     z3.And(z3.BoolVal(isinstance(out, Raise) and not ops and not calls), engine.to_val(st, out.exc) == ctx["exc"] if isinstance(out, Raise) else False), ["C17"])]
+        cl = [("the result is obtained once, honouring the configured timeout", "PC",
+               z3.And(z3.BoolVal(len(rc) == 1), rc[0].args[0] == ctx["timeout"] if rc else False), ["C17"])]
+        ok = len(ops) == 1 and not calls and ops[0].meth == op
+        operands = z3.BoolVal(False)
+        if ok:
+            if op == "delitem":
+                operands = z3.And(ops[0].args[0] == ctx["res"], ops[0].args[1] == ctx["others"][0].t)
+            else:
+                tv = st.objreg.get(engine.concrete_id(ops[0].args[1]))
+                items = getattr(tv, "items", None)
+                if items is not None and len(items) == 2:
+                    operands = z3.And(ops[0].args[0] == ctx["res"], engine.to_val(st, items[0]) == ctx["others"][0].t, engine.to_val(st, items[1]) == ctx["others"][1].t)
+        cl.append(("%s performs `%s` on the result itself with the caller's key%s - exactly once, nothing else" % (meth, op, " and value, in that order" if op == "setitem" else ""), "PC",
+                   z3.And(z3.BoolVal(ok), operands), ["C17"]))
+        if ops:
+            k = z3.IntVal(STRINGS.get("op:" + op))
+            if isinstance(out, Raise):
+                cl.append(("an exception of the operation is propagated unchanged", "PC", engine.to_val(st, out.exc) == py_op_exc(k, ops[0].args[0], ops[0].args[1]), ["C17"]))
+            else:
+                cl.append(("the statement yields nothing (None)", "PC", z3.BoolVal(out is None), ["C17"]))
+        return cl
+    return post
+
+
 UNITS = []
+for m in ("__setitem__", "__delitem__"):
+    for stt in ("resolved", "failed"):
+        UNITS.append(Unit("ProxyFuture.%s[%s]" % (m, stt), "futures.proxy.ProxyFuture." + m, ["C17"], _setup_item(m, stt), _post_item(m, stt), cfg=_cfg, self_cls="ProxyFuture"))
 for m in sorted(FORWARDED):
     UNITS.append(Unit("ProxyFuture.%s[resolved]" % m, "futures.proxy.ProxyFuture." + m, ["C17"], _setup(m, "resolved"), _post(m, "resolved"), cfg=_cfg, self_cls="ProxyFuture"))
 for m in ("__add__", "__len__", "__getitem__"):
